@@ -80,6 +80,8 @@ def standins(tier, seed):
     for p, q, r in [(2, 0, 1), (3, 0, 1), (1, 1, 1), (3, 1, 0), (4, 1, 0)]:
         cfgs.append(dict(p=p, q=q, r=r))
     cfgs += [dict(name='2DPGA'), dict(name='3DPGA'), dict(name='STAP')]
+    # graded mode stores a blade as a one-hot vector over its grade: the blade dictionary has its own code path there
+    cfgs += [dict(p=4, graded=True), dict(p=2, q=1, r=1, graded=True), dict(p=3, graded=True)] + ([dict(p=5, graded=True)] if tier != 'quick' else [])
     for d in (1, 2):
         cfgs += _custom_bases(rng, d, 6 if tier == 'quick' else 40)
     for d in (3, 4) + ((5,) if tier != 'quick' else ()):
